@@ -295,6 +295,22 @@ def step (st : State) (line : String) : State × String :=
                  (if bits == 16 then leCpu16 e x else if bits == 32 then leCpu32 e x else leCpu64 e x)
       (st, s!"v {r} " ++ toHex ((bytesLE (bits / 8) r).toArray.map (fun b => UInt8.ofNat b.val)))
     | none => (st, "bad-op")
+  -- byte-order helper on a host of the given byte order: value and memory image
+  | ["boe", en, h, x] =>
+    match nat? x with
+    | some x =>
+      let e := endianOf en
+      let bits := if h.endsWith "16" then 16 else if h.endsWith "32" then 32 else 64
+      let x := x % 2 ^ bits
+      let r := if h.startsWith "Avtp_Bswap" then
+                 (if bits == 16 then bswap16 x else if bits == 32 then bswap32 x else bswap64 x)
+               else if h.startsWith "Avtp_CpuToBe" || h.startsWith "Avtp_BeToCpu" then
+                 (if bits == 16 then beCpu16 e x else if bits == 32 then beCpu32 e x else beCpu64 e x)
+               else
+                 (if bits == 16 then leCpu16 e x else if bits == 32 then leCpu32 e x else leCpu64 e x)
+      let img := match e with | .little => bytesLE (bits / 8) r | .big => bytesBE (bits / 8) r
+      (st, s!"v {r} " ++ toHex (img.toArray.map (fun b => UInt8.ofNat b.val)))
+    | none => (st, "bad-op")
   | ["facts", fmt] =>
     match findFormat fmt with
     | some s => (st, s!"f {s.headerLen} {s.headerLen} {s.headerLen}")
